@@ -134,4 +134,16 @@ Inst(pat, sigma, rho) ==
 Swap(t, x, z) ==
   Ren(t, [y \in Names(t) \cup {x, z} |-> IF y = x THEN z ELSE IF y = z THEN x ELSE y])
 
+(***************************************************************************)
+(* Height tags of the leaf-operator analysis (C14): besides the leaf        *)
+(* operators below a class its datum holds "#k" for every k <= HCap such    *)
+(* that the class has a term of height >= k along some path - a component  *)
+(* in which an e-node that refers to its OWN class improves that class      *)
+(* again and again (up to the cap).  Join = set union as before.            *)
+(***************************************************************************)
+HCap  == 6
+HTags == <<"#1", "#2", "#3", "#4", "#5", "#6">>
+HSucc(S) == {HTags[k + 1] : k \in {j \in 1..(HCap - 1) : HTags[j] \in S}}
+LeafDatum(op) == {op, "#1"}
+NodeDatum(S)  == S \cup HSucc(S)            \* S = union of the children's data
 =============================================================================
